@@ -265,11 +265,24 @@ impl Parser {
                             }
                         }
 
+                        // the counter holds `start + step + step + ..`: a float as soon as either is one
+                        let counter_ty = {
+                            let flags = TypecheckFlags::use_class(
+                                input.user_data().get_type_of_executing_class(),
+                            );
+
+                            let step_ty = match &step {
+                                Some((val, _)) => val.for_type(&flags).to_err_vec()?,
+                                None => TypeLayout::Native(NativeType::Int),
+                            };
+
+                            start_ty
+                                .get_output_type(&step_ty, &BinaryOperation::Add, &flags)
+                                .unwrap_or_else(|| start_ty.clone())
+                        };
+
                         ident
-                            .link_force_no_inherit(
-                                input.user_data(),
-                                Cow::Owned(TypeLayout::Native(NativeType::Int)),
-                            )
+                            .link_force_no_inherit(input.user_data(), Cow::Owned(counter_ty))
                             .to_err_vec()?;
 
                         // input.user_data().add_dependency(ident.clone());
